@@ -156,7 +156,15 @@ func renderAFM(r *rng, m *afm.Metrics) []byte {
 	eol := pick(r, []string{"\n", "\r\n"})
 	sp := func() string { return pick(r, []string{" ", "  ", "\t", " \t "}) }
 	var sb strings.Builder
-	line := func(format string, a ...any) { sb.WriteString(fmt.Sprintf(format, a...) + eol) }
+	// some files indent every line, some only now and then (AFM files are often indented by section)
+	indentAll := pick(r, []string{"", "", "", "  ", "\t"})
+	line := func(format string, a ...any) {
+		ind := indentAll
+		if r.chance(1, 12) {
+			ind += pick(r, []string{" ", "   ", "\t"})
+		}
+		sb.WriteString(ind + fmt.Sprintf(format, a...) + eol)
+	}
 	line("StartFontMetrics%s4.1", sp())
 	line("Comment generated by the verification harness")
 	hdr := []string{
@@ -294,6 +302,23 @@ func afmCase(o *suiteOut, line string) {
 		if d := compareMetrics(m, back, true); d != "" {
 			o.fail("C15", "the reader understands the same data with different spacing, field order and line ends", line, "equal", d)
 		}
+	case "barecr":
+		// line ends: LF, CR LF and the bare CR of classic Mac OS files
+		m := randMetrics(r)
+		laid := bytes.ReplaceAll(bytes.ReplaceAll(renderAFM(r, m), []byte("\r\n"), []byte("\n")), []byte("\n"), []byte("\r"))
+		afmrwLine(o, laid)
+		back, err, pan := readMetrics(laid)
+		if pan != "" {
+			o.fail("C01", "no panic in the AFM reader", line, "error value", pan)
+			break
+		}
+		if err != nil {
+			o.fail("C15", "the reader understands the data laid out by an independent writer", line, "metrics", err.Error())
+			break
+		}
+		if d := compareMetrics(m, back, true); d != "" {
+			o.fail("C15", "the reader understands the same data with bare CR line ends", line, "equal", d[:min(len(d), 200)])
+		}
 	case "longline":
 		// an accepted file whose written form has a line beyond bufio.Scanner's 64 kB token limit
 		var sb strings.Builder
@@ -385,6 +410,8 @@ func afmCase(o *suiteOut, line string) {
 func suiteAFM(o *suiteOut, r *rng, tier string, n int) {
 	afmCase(o, "afm 0 longline")
 	afmCase(o, "afm 1 longline2")
+	afmCase(o, "afm 2 barecr")
+	afmCase(o, "afm 3 barecr")
 	for _, l := range corpusLines("afm") {
 		afmCase(o, l)
 		o.count("corpus cases")
